@@ -62,6 +62,12 @@ def check(prop, tier, seed):
     # several messages in one call, one of the saves failing (the first, a middle one, the last, none)
     for k in (0, 1, 2, 3, 5):
         confs.append(dict(handlers=[], saveFailAt=k, batch=True))
+    # sends through a session that the application has closed (Session.Stop: Logout, session context cancelled) while its handler
+    # and connection stay up: a refusal or a failing save is still reported by the send call
+    for k in (0, 2, 3, 4, 5):
+        for hs in ([], [dict(id=1, dir="out", ty="V", accept=False, when="post", mutate=False)],
+                   [dict(id=1, dir="out", ty="ALL", accept=True, when="pre", mutate=False), dict(id=2, dir="out", ty="5", accept=True, when="post", mutate=False)]):
+            confs.append(dict(handlers=hs, saveFailAt=k, stop=True))
     scns = []
     for i, c in enumerate(confs):
         steps = [dict(a="send", ty="V"), dict(a="recv", ty="1"), dict(a="send", ty="V"), dict(a="recv", ty="D"),
@@ -82,6 +88,8 @@ def check(prop, tier, seed):
             late_at = 4
         if c.get("batch"):
             steps = [dict(a="batch", ty="V"), dict(a="send", ty="V"), dict(a="batch", ty="V"), dict(a="recv", ty="1")]
+        if c.get("stop"):
+            steps = [dict(a="send", ty="V"), dict(a="stop", ty="5"), dict(a="send", ty="V"), dict(a="send", ty="V"), dict(a="send", ty="V")]
         if c.get("relogon"):
             steps = [dict(a="send", ty="V"), dict(a="recv", ty="1"), dict(a="recv", ty="5"), dict(a="recv", ty="A"), dict(a="send", ty="V"),
                      dict(a="recv", ty="1"), dict(a="recv", ty="D"), dict(a="send", ty="V"), dict(a="recv", ty="2"), dict(a="recv", ty="5"), dict(a="recv", ty="A"),
